@@ -112,6 +112,34 @@ MUTANTS = [
     m("C07-logdet-component", "C07", "logdet@logdet", LOGDET, "_, ld = slogdet(A, log_alg=log_alg, trace_alg=trace_alg)\n    return ld", "ld, _ = slogdet(A, log_alg=log_alg, trace_alg=trace_alg)\n    return ld"),
     m("C07-logdet-swaps-algs", "C07", "forwarded@logdet", LOGDET, "_, ld = slogdet(A, log_alg=log_alg, trace_alg=trace_alg)", "_, ld = slogdet(A, log_alg=trace_alg, trace_alg=log_alg)"),
     m("C07-auto-cholesky-nonpsd", "C07", "auto-rule@slogdet(LinearOperator,Auto,Algorithm):guard-implication", LOGDET, "    elif not is_PSD and small:\n        log_alg = LU()", "    elif not is_PSD and small:\n        log_alg = Cholesky()"),
+    # ---------------------------------------------------------------- C08
+    m("C08-kron-no-refusal", "C08", "k-guard@diag(Kronecker", DIAG, "    assert k == 0, \"Need to verify correctness of rule for off diagonal case\"\n    ds = [diag(M, k, alg) for M in A.Ms]\n    # compute outer product of the diagonals\n    slices = [[None] * i + [slice(None)] + [None] * (len(ds) - i - 1) for i in range(len(ds))]\n    return product(",
+      "    ds = [diag(M, k, alg) for M in A.Ms]\n    # compute outer product of the diagonals\n    slices = [[None] * i + [slice(None)] + [None] * (len(ds) - i - 1) for i in range(len(ds))]\n    return product("),
+    m("C08-blockdiag-no-refusal", "C08", "k-guard@diag(BlockDiag", DIAG, "    assert k == 0, \"Havent filled this case yet, need to pad with 0s\"\n", ""),
+    m("C08-diagonal-ignores-k", "C08", "k-guard@diag(Diagonal", DIAG, "def diag(A: Diagonal, k: int, alg: Algorithm):\n    if k == 0:\n        return A.diag\n    else:\n        return A.xnp.zeros((A.shape[0] - abs(k), ), A.dtype, device=A.device)",
+      "def diag(A: Diagonal, k: int, alg: Algorithm):\n    return A.diag"),
+    m("C08-offdiag-length", "C08", "diag-length@diag(Identity", DIAG, "def diag(A: Identity, k: int, alg: Algorithm):\n    if k == 0:\n        return A.xnp.ones((A.shape[0], ), A.dtype, device=A.device)\n    else:\n        return A.xnp.zeros((A.shape[0] - abs(k), ), A.dtype, device=A.device)",
+      "def diag(A: Identity, k: int, alg: Algorithm):\n    if k == 0:\n        return A.xnp.ones((A.shape[0], ), A.dtype, device=A.device)\n    else:\n        return A.xnp.zeros((A.shape[0] - k, ), A.dtype, device=A.device)"),
+    m("C08-sum-drops-k", "C08", "forwarded@diag(Sum", DIAG, "out = sum(diag(M, k, alg) for M in A.Ms)", "out = sum(diag(M, 0, alg) for M in A.Ms)"),
+    m("C08-kron-axis-order", "C08", "rule-algebra@diag(Kronecker", DIAG, "    slices = [[None] * i + [slice(None)] + [None] * (len(ds) - i - 1) for i in range(len(ds))]\n    return product(", "    slices = [[None] * (len(ds) - i - 1) + [slice(None)] + [None] * i for i in range(len(ds))]\n    return product("),
+    m("C08-kronsum-product", "C08", "rule-algebra@diag(KronSum", DIAG, "return sum([d[tuple(s)] for d, s in zip(ds, slices)]).reshape(-1)", "return product([d[tuple(s)] for d, s in zip(ds, slices)]).reshape(-1)"),
+    m("C08-blockdiag-mult", "C08", "rule-algebra@diag(BlockDiag", DIAG, "diags = [[diag(M, k, alg)] * m for M, m in zip(A.Ms, A.multiplicities)]", "diags = [[diag(M, k, alg)] for M, m in zip(A.Ms, A.multiplicities)]"),
+    m("C08-dense-k", "C08", "rule-algebra@diag(Dense", DIAG, "return xnp.diag(A.A, diagonal=k)", "return xnp.diag(A.A)"),
+    m("C08-trace-kron-sum", "C08", "trace-rule@trace(Kronecker", DIAG, "return product([trace(M, alg) for M in A.Ms])", "return sum([trace(M, alg) for M in A.Ms])"),
+    m("C08-trace-offdiag", "C08", "trace-rule@trace(LinearOperator", DIAG, "return diag(A, 0, alg).sum()", "return diag(A, 1, alg).sum()"),
+    m("C08-auto-swapped", "C08", "auto-selection@diag(LinearOperator,int,Auto)", DIAG, "exact_faster = tol < 1 / np.sqrt(10 * np.prod(A.shape))", "exact_faster = tol > 1 / np.sqrt(10 * np.prod(A.shape))"),
+    m("C08-exact-drops-k", "C08", "base-case@Exact.__call__", DEST, "return exact_diag(A, k, self.bs)", "return exact_diag(A, 0, self.bs)"),
+    m("C08-base-case-args", "C08", "base-case@diag(LinearOperator,int,Exact|Hutch|HutchPP)", DIAG, "    return alg(A, k)", "    return alg(A, 0)"),
+    # ---------------------------------------------------------------- C10
+    m("C10-get-slice-swapped", "C10", "selection@get_slice", DEC, "    if which == \"SM\":\n        eig_slice = slice(0, num, None)\n    elif which == \"LM\":", "    if which == \"LM\":\n        eig_slice = slice(0, num, None)\n    elif which == \"SM\":"),
+    m("C10-identity-order-stays-proved-silent", "C10", "", EIGS, "eig_vals = xnp.ones(shape=(A.shape[0], ), dtype=A.dtype, device=A.device)\n    eig_vecs = A.to_dense()", "eig_vals = xnp.ones(shape=(A.shape[-1], ), dtype=A.dtype, device=A.device)\n    eig_vecs = A.to_dense()", silent=True),
+    m("C10-slice-unpaired", "C10", "slice-pairing@eig(LinearOperator,int,str,Eigh)", EIGS, "return eig_vals[eig_slice], Stiefel(lazify(eig_vecs[:, eig_slice]))", "return eig_vals[eig_slice], Stiefel(lazify(eig_vecs[eig_slice, :]))"),
+    m("C10-perm-rows", "C10", "paired-permutation@eig(Diagonal,int,str,Algorithm):sorted_ind", EIGS, "eig_vecs = I_like(A).to_dense()[:, sorted_ind]", "eig_vecs = I_like(A).to_dense()[sorted_ind, :]"),
+    m("C10-perm-unpaired", "C10", "paired-permutation@lanczos_eigs:idx", LAN, "V = Q @ lazify(eigvectors[:, idx])", "V = Q @ lazify(eigvectors)"),
+    m("C10-eigmin-lm", "C10", "eig-wrapper@eigmin", EIGS, "es, vs = eig(A, k=1, which='SM', alg=alg)", "es, vs = eig(A, k=1, which='LM', alg=alg)"),
+    m("C10-power-contract", "C10", "power-iteration@eig(LinearOperator,int,str,PowerIteration)", EIGS, "    assert k == 1 and which == 'LM', \"PowerIteration only valid for k=1 and which='LM'\"\n", ""),
+    m("C10-fix-makes-proved-silent", "C10", "", EIGS, "    sorted_ind = xnp.argsort(A.diag)\n    eig_vals = A.diag[sorted_ind]", "    sorted_ind = xnp.argsort(xnp.abs(A.diag))\n    eig_vals = A.diag[sorted_ind]", silent=True),
+    m("C10-auto-eigh-nonsa", "C10", "auto-rule@eig(LinearOperator,int,str,Auto):guard-implication", EIGS, "    elif not SA and not small:\n        algorithm = Arnoldi(**alg.__dict__)", "    elif not SA and not small:\n        algorithm = Lanczos(**alg.__dict__)"),
     # ---------------------------------------------------------------- C09
     m("C09-eig-uses-adjoint", "C09", "dense-path@apply_unary(Callable,LinearOperator,Eig)", UNARY, "return V @ D @ inv(V)", "return V @ D @ V.H"),
     m("C09-eigh-transpose", "C09", "dense-path@apply_unary(Callable,LinearOperator,Eigh)", UNARY, "return V @ D @ V.H", "return V @ D @ V.T"),
